@@ -114,9 +114,9 @@ func c13Monitor(st *engine.Step) {
 				viol("enrolment-without-email-authorisation", "kind="+tag.Kind, "e-mail authorisation is required but the session had not presented the mailed token")
 			}
 		case changedSMS && after.SMSPhoneNumber == "":
-			_, sent := smsSentInSession(pre, b, tag.Secret)
-			if tag.Kind != "sms_remove" || !((sent && tag.Secret != "") || liveRC(pre, pid, tag.Recovery)) {
-				viol("sms-disabled-without-proof", "kind="+tag.Kind+",code="+tag.Note, "neither a code the library sent in this session nor an unused recovery code was presented")
+			n, sent := smsSentInSession(pre, b, tag.Secret)
+			if tag.Kind != "sms_remove" || !((sent && tag.Secret != "" && n == before.SMSPhoneNumber) || liveRC(pre, pid, tag.Recovery)) {
+				viol("sms-disabled-without-proof", "kind="+tag.Kind+",code="+tag.Note, fmt.Sprintf("neither a code the library sent to the registered number %s in this session (the code presented was sent to %q) nor an unused recovery code was presented", before.SMSPhoneNumber, n))
 			}
 		case changedRC:
 			reEnrol := false
@@ -379,6 +379,14 @@ func c13Scenarios(tier string) []engine.Scenario {
 					sc.Depth = depth + 2 // authorisation takes two extra requests
 				}
 				out = append(out, engine.Sharded(sc, 8)...)
+				if !emailReq && !e500 && unauth == authboss.RespondNotFound {
+					// the same with a session store that returns a nil state for a browser without a session
+					// (the first, cookie-only request of a restarted browser is then served without any state)
+					ns := sc
+					ns.Name += ",nil-state"
+					ns.Cfg.NilEmptyState = true
+					out = append(out, engine.Sharded(ns, 8)...)
+				}
 			}
 		}
 	}
@@ -448,12 +456,12 @@ func c13Scenarios(tier string) []engine.Scenario {
 func init() {
 	engine.Register(&engine.Property{
 		ID: "C13", Level: "model_checking",
-		Rule:        "E1 over every 2FA settings route (setup / confirm / remove / regen / e-mail verify start+end, TOTP and SMS) from fully authenticated, half-authenticated (incl. the first request that carries only the cookie), pending and anonymous sessions with code / token alphabets (valid for the secret being enrolled, for the current factor, another account's, recovery codes, empty, zeros; token mailed for this / the other session, previous, empty, garbage); oracle diffs all accounts' 2FA fields around every request; classes = change kinds and attempting session kinds",
+		Rule: "E1 over every 2FA settings route (setup / confirm / remove / regen / e-mail verify start+end, TOTP and SMS) from fully authenticated, half-authenticated (incl. the first request that carries only the cookie), pending and anonymous sessions with code / token alphabets (valid for the secret being enrolled, for the current factor, another account's, recovery codes, empty, zeros; token mailed for this / the other session, previous, empty, garbage); oracle diffs all accounts' 2FA fields around every request; classes = change kinds and attempting session kinds",
 		Units: func(tier string) []engine.Unit {
 			scs := c13Scenarios(tier)
 			return e1Units(append(scs, configVariants(scs, tier, "faults:-confirm(|-remove(|-setup(|verify-end(|regen(")...))
 		},
 		Need:        []string{"totp-enabled", "sms-enabled", "totp-disabled", "sms-disabled", "regenerated", "email-authorised", "attempt:full", "attempt:half-authed", "attempt:pending", "attempt:anonymous", "attempt:cookie-only"},
-		Assumptions: []string{"for SMS removal 'a current code' is read leniently: any code the library sent in this session (the statement does not bind it to the registered number)", "bounded depth, 2 accounts, 2 browsers"},
+		Assumptions: []string{"for SMS removal 'a current code' is a code the library sent to the registered number in this session", "bounded depth, 2 accounts, 2 browsers"},
 	})
 }
